@@ -1446,7 +1446,12 @@ def _desugar_combinators(d, record, max_passes=6):
                         ops = []
                         if act[3]:
                             tl = len(f["locals"])
-                            f["locals"] = f["locals"] + ["_"]
+                            # the temporary holding the payload: typed when the payload is what a closure returns
+                            sub = act[3]
+                            sty = "_"
+                            if sub[0] == "call" and plan.get(sub[1], (None,))[0] == "closure":
+                                sty = plan[sub[1]][1]["locals"][0]
+                            f["locals"] = f["locals"] + [sty]
                             cur = emit(act[3], cur, {"l": tl, "p": []})
                             ops = [{"k": "move", "pl": {"l": tl, "p": []}}]
                         cur["st"].append({"s": "assign", "pl": out_pl, "rv": {"rv": "agg", "agg": "adt", "adt": act[1], "variant": act[2], "fields": ["0"] if ops else [], "ops": ops},
